@@ -363,6 +363,18 @@ variable {κ ρ : Type} (env : GEnv κ ρ)
     through `init` (population created or supplied by the caller). (Obligation on Generated/RunFacts.lean.) -/
 theorem C18_init_seeds_global : Gen.initSeedsGlobalFirst = true := by decide
 
+/-- **No process-level state outside the generators.** No class of the package keeps a mutable container as a class attribute
+    (it would be ONE object shared by every instance — every member — that runs in a process), nothing is memoised, and the
+    module-level containers are the reviewed constant look-up tables. (Obligation on Generated/RunFacts.lean; the frame
+    theorems below depend on it through `initResetsProcessState`.) -/
+theorem C18_no_process_level_state :
+    Gen.classLevelMutables = [] ∧ Gen.processMemos = [] ∧
+    Gen.moduleLevelContainers = ["__init__.py:reqs", "arrays.py:type_def", "arrays.py:type_map", "distributions.py:dist_list",
+      "modules.py:module_args", "time.py:default_start", "time.py:time_args", "time.py:time_units", "time.py:unit_mapping",
+      "time.py:unit_mapping_reverse"] := by decide
+
+theorem C18_init_resets_process_state : initResetsProcessState = true := by decide
+
 /-- **Frame, one member.** A not yet initialised member run in a process whose global generators are in ANY state
     gives the sim the pure model gives: the configuration run alone with its seed. -/
 theorem C18_host_state_frame_single (t : Task κ ρ) (g : GState) (ht : t.sim.initSeed = none) :
